@@ -290,33 +290,36 @@ func (p *ParserZH) setStmtCurrentLine(s syntax.Statement, tk *syntax.Token) {
 
 // wrap 0x2250 InvalidSyntaxCurr - with current token's startIdx
 func (p *ParserZH) getInvalidSyntaxCurr() error {
-	startIdx := p.TokenP1.StartIdx
-	return zerr.InvalidSyntax(startIdx)
+	return zerr.InvalidSyntax(p.currStartIdx())
+}
+
+// currStartIdx - where the current token starts (no token has been consumed yet: where the peek token starts)
+func (p *ParserZH) currStartIdx() int {
+	if p.TokenP1 != nil {
+		return p.TokenP1.StartIdx
+	}
+	return p.peekStartIdx()
+}
+
+// peekStartIdx - where the peek token starts
+func (p *ParserZH) peekStartIdx() int {
+	if p.TokenP2 != nil {
+		return p.TokenP2.StartIdx
+	}
+	if p.TokenP1 != nil {
+		return p.TokenP1.StartIdx
+	}
+	return 0
 }
 
 func (p *ParserZH) getInvalidSyntaxPeek() error {
-	startIdx := p.TokenP1.StartIdx
-	if p.TokenP2 != nil {
-		startIdx = p.TokenP2.StartIdx
-	}
-
-	return zerr.InvalidSyntax(startIdx)
+	return zerr.InvalidSyntax(p.peekStartIdx())
 }
 
 func (p *ParserZH) getUnexpectedIndentPeek() error {
-	startIdx := p.TokenP1.StartIdx
-	if p.TokenP2 != nil {
-		startIdx = p.TokenP2.StartIdx
-	}
-
-	return zerr.UnexpectedIndent(startIdx)
+	return zerr.UnexpectedIndent(p.peekStartIdx())
 }
 
 func (p *ParserZH) getExprMustTypeIDPeek() error {
-	startIdx := p.TokenP1.StartIdx
-	if p.TokenP2 != nil {
-		startIdx = p.TokenP2.StartIdx
-	}
-
-	return zerr.ExprMustTypeID(startIdx)
+	return zerr.ExprMustTypeID(p.peekStartIdx())
 }
